@@ -17,8 +17,9 @@ from mcx.seams import patched
 
 KINDS = ('bonds', 'dihedrals')
 TEMPLATES = ('plain', 'comment', 'empty', 'two', 'line', 'blank', 'ifdef')
+EMPTIES_TEMPLATES = ('empty2', 'empty3', 'emptysp')          # several EMPTY trailing comments: ';;', ';;;', '; ;'
 HASH_TEMPLATES = ('hashtrail', 'hashline')
-EMPTY_TEMPLATES = ('nocontent', 'onlycomment', 'onlypp')
+EMPTY_TEMPLATES = ('nocontent', 'onlycomment', 'onlypp', 'void')
 HEADER = ['; generated for the check', ';', '#include "forcefield.itp"', '']
 BOND_POOL = ((1, 2), (2, 3), (3, 4), (1, 3), (2, 4), (1, 4), (1, 2), (3, 4))
 
@@ -42,6 +43,11 @@ def decorate(rows, tpl, tag):
         return ['%s ; %s note %d' % (ln, tag, i) for i, ln in enumerate(lines)]
     if tpl == 'empty':
         return [ln + ' ;' for ln in lines]
+    if tpl in ('empty2', 'empty3', 'emptysp'):
+        tail = {'empty2': ' ;;', 'empty3': ' ;;;', 'emptysp': ' ; ;'}[tpl]
+        return [ln + tail for ln in lines]
+    if tpl == 'void':                    # a header immediately followed by the next header (or the end of the file)
+        return []
     if tpl == 'two':
         return ['%s ; %s a%d ; b%d' % (ln, tag, i, i) for i, ln in enumerate(lines)]
     if tpl == 'line':
@@ -166,7 +172,7 @@ class C16(Check):
                   'atoms, bonds*, dihedrals* x 7 line templates per section x final newline or not) are written and re-read '
                   'twice by the real code, plus two small families on moleculetype, atoms, bonds, dihedrals: comment text that '
                   'begins with "#" (trailing and comment-only) and indented directives, and section occurrences without any content '
-                  'line (comment and/or #include only) at every subset of positions in every tail of up to 3 sections; a coverage statement over that '
+                  'line (comment and/or #include only, or nothing at all) at every subset of positions in every tail of up to 3 sections; several EMPTY trailing comments (";;", ";;;", "; ;"); five shipped molecules written one after the other through the same output paths; a coverage statement over that '
                   'finite space')
     level_note = ('trusted: the reference reader mcx/ref/itp.py (self-tested). Reading of the statement: an item is a content '
                   'line (tokens + its trailing comment), a non-empty comment-only line or a preprocessor line; blank lines '
@@ -245,6 +251,13 @@ class C16(Check):
                 tpl = ['plain'] * len(secs)
                 tpl[pos] = 'indentpp'
                 yield {'k': 'gen', 'secs': secs, 'tpl': tpl, 'indent': 1}
+            for t in EMPTIES_TEMPLATES:
+                for pos in range(len(secs)):
+                    for other in ('plain', 'comment'):
+                        tpl = [other] * len(secs)
+                        tpl[pos] = t
+                        yield {'k': 'gen', 'secs': secs, 'tpl': tpl, 'empties': t}
+            yield {'k': 'pathseq'}
 
     def run_unit(self, unit, tier, seed):
         with Scratch() as d:
@@ -264,6 +277,22 @@ class C16(Check):
                 finally:
                     self._dir = None
         d = self._dir
+        if case['k'] == 'pathseq':
+            # call history on the SAME output paths: different shipped molecules are written to p1 / p2 one after
+            # the other; each written file must read back as ITS source (nothing remembered about a path may
+            # outlive the file's content)
+            import gaddlemaps
+            data = os.path.join(os.path.dirname(gaddlemaps.__file__), 'data')
+            files = sorted((os.path.getsize(os.path.join(data, f)), f) for f in os.listdir(data) if f.endswith('.itp'))
+            for i, (_, f) in enumerate(files[:5] + files[:1]):
+                src = os.path.join(data, f)
+                sigs, outcome, A = roundtrip(src, _read(src), d)
+                R.case(dict(case, step=i, file=f), nontrivial=i > 0, outcome=outcome, cls='same-paths-rewritten')
+                for sig, det in sigs:
+                    R.violation('same-paths-rewritten/' + sig, case, '%s (file %d of the sequence): %s' % (f, i, det))
+                if sigs:
+                    break
+            return
         if case['k'] == 'shipped':
             import gaddlemaps
             src = os.path.join(os.path.dirname(gaddlemaps.__file__), 'data', case['file'])
@@ -276,7 +305,8 @@ class C16(Check):
                 R.violation(sig, case, '%s: %s' % (case['file'], det))
             return
         secs, tpls = case['secs'], case['tpl']
-        prefix = ('section-without-content-lines/' if case.get('empty') else
+        prefix = ('several-empty-trailing-comments/' if case.get('empties') else
+                  'section-without-content-lines/' if case.get('empty') else
                   'comment-text-starting-with-hash/' if case.get('hash') else
                   'indented-directive/' if case.get('indent') else '')
         variants = [(case['hdr'], case['nl'])] if 'hdr' in case else [(0, 1), (1, 1), (0, 0), (1, 0)]
@@ -295,7 +325,7 @@ class C16(Check):
                     sigs = []
             nontrivial = repeated or bool(hdr) or not nl or any(t != 'plain' for t in tpls)
             R.case(cdesc, nontrivial=nontrivial, outcome=outcome,
-                   cls='empty-section' if case.get('empty') else 'hash' if case.get('hash') else 'indent' if case.get('indent') else 'gen/L%d/%s' % (len(secs), 'repeated' if repeated else 'single'))
+                   cls='empties' if case.get('empties') else 'empty-section' if case.get('empty') else 'hash' if case.get('hash') else 'indent' if case.get('indent') else 'gen/L%d/%s' % (len(secs), 'repeated' if repeated else 'single'))
             for sig, det in sigs:
                 R.violation(prefix + sig, cdesc, det)
 
